@@ -25,6 +25,7 @@ RULE = ("sim-enum: operation in flight in {daemon start with global warm-up, "
         "{quit request, SIGTERM, SIGINT, SIGQUIT} x every loop step / timer "
         "jump of the operation.  sim-random: lifecycle histories with "
         "stubborn workers, workers stopped / continued by signal requests, "
+        "output captured by a user-written stream class without close(), "
         "managed inet/unix sockets, then a trigger at a "
         "random point (optionally a second one).  pidfile: contents from "
         "{empty, blanks, garbage, non-UTF-8 bytes, negative, 0, own pid, pid "
@@ -479,6 +480,15 @@ def _sim_strategy():
     @st.composite
     def case(draw):
         hist = draw(base)
+        for wc in hist["watchers"]:
+            if draw(st.integers(0, 3)) == 0:
+                # output goes to a user-written stream class: callable,
+                # and nothing else (close() is optional)
+                if hist.get("config"):
+                    wc["stdout_stream.class"] = 'vfw.streams.NoCloseStream'
+                else:
+                    wc["stdout_stream"] = {
+                        "class": 'vfw.streams.NoCloseStream'}
         hist["default_beh"] = draw(st.sampled_from(
             [{"react": "ignore"}, {"react": "die", "delay": 0.0},
              {"react": "die", "delay": 0.15}]))
